@@ -84,6 +84,14 @@ class WireManagerBase(abc.ABC):
                         f"and {coincident} ({coincident.grading.count})"
                     )
 
+                # ... and the same cell sizes (seen from the other end if the wires are opposed)
+                other_grading = coincident.grading if coincident.is_aligned(wire) else coincident.grading.inverted
+                if other_grading != wire.grading:
+                    raise InconsistentGradingsError(
+                        f"Inconsistent gradings on coincident wires {wire} ({wire.grading}) "
+                        f"and {coincident} ({coincident.grading})"
+                    )
+
 
 class WireChopManager(WireManagerBase):
     """Responsible for conversion of user-specified Chops
